@@ -8,6 +8,7 @@ package kit
 import (
 	"context"
 	"errors"
+	"fmt"
 	"reflect"
 
 	"github.com/junioryono/godi/v4"
@@ -88,6 +89,9 @@ var (
 	Done [7][NS]int
 
 	ErrBoom  = errors.New("kit: injected constructor error")
+	// ErrWrapped is what a constructor returns under FaultWrapped: its own
+	// fmt.Errorf value around ErrBoom - both must stay reachable with errors.Is
+	ErrWrapped = fmt.Errorf("kit: constructor context: %w", ErrBoom)
 	ErrClose = errors.New("kit: injected close error")
 	PanicVal = "kit: injected panic"
 
@@ -113,10 +117,42 @@ var (
 )
 
 const (
-	FaultError = 1
-	FaultNil   = 2
-	FaultPanic = 3
+	FaultError   = 1
+	FaultNil     = 2
+	FaultPanic   = 3
+	FaultWrapped = 4
 )
+
+// ---- value-typed disposables: instances that are equal as interface values
+// (VS) or not even hashable (US); only counters can tell them apart.
+
+type VS struct{ Pool int }
+
+type US struct {
+	Pool int
+	f    func()
+}
+
+var (
+	VSMade, VSClosed int
+	USMade, USClosed int
+	VSCloseErr       bool
+)
+
+func NewVS() VS { VSMade++; return VS{Pool: 1} }
+func (v VS) Close() error {
+	VSClosed++
+	if VSCloseErr {
+		return ErrClose
+	}
+	return nil
+}
+
+func NewUS() US { USMade++; return US{Pool: 1, f: func() {}} }
+func (u US) Close() error {
+	USClosed++
+	return nil
+}
 
 func checkUntouched(ok bool) {
 	if !ok {
@@ -175,6 +211,8 @@ func mk(b *Base, slot, variant, kind int, args ...any) (err error, isNil bool) {
 	switch fault(slot) {
 	case FaultError:
 		return ErrBoom, false
+	case FaultWrapped:
+		return ErrWrapped, false
 	case FaultNil:
 		return nil, true
 	case FaultPanic:
@@ -234,6 +272,10 @@ func mkVoid(slot, variant, kind int, args ...any) error {
 	case FaultError:
 		if kind == KindVoidErr {
 			return ErrBoom
+		}
+	case FaultWrapped:
+		if kind == KindVoidErr {
+			return ErrWrapped
 		}
 	case FaultPanic:
 		panic(PanicVal)
